@@ -359,6 +359,58 @@ def ob_field_receiver(run, mir, rp, fam):
     run.samples.append({"obligation": ob.id, "queueing_paths": n})
 
 
+def ob_substitute_nullable(run, mir, rp, fam):
+    ob = run.ob("substitution-keeps-nullability", "E2", "TrueName::substitute (how an inferred type replaces a placeholder, also inside generic arguments): the nullable flag of the "
+                "result is the receiver's flag OR-ed with something that depends on what the placeholder is replaced by - the variant alone (a StringName) cannot say "
+                "that the replacement may be None, so `List[@1]` with @1 := Int? must become List[Int?], not List[Int]", ["<TrueName as Substitute>::substitute"])
+    TN = "src/check/name/true_name/mod.rs"
+    fn = e2.find1(mir, file=TN, impl="impl Substitute for TrueName", name="substitute")
+    ex = Exec(mir, max_paths=2000)
+    st = State()
+    tnf = e2.rust_struct(TN, "TrueName")
+    flag = z3.Bool("self.is_nullable")
+    me = e2.mk_struct(TN, "TrueName", {f: (flag if f == "is_nullable" else z3.Bool("self." + f) if f.startswith("is_") else e2.opq("self." + f, "StringName")) for f in tnf})
+    gen = e2.opq("generics", "HashMap<Name, Name>")
+    ends = e2.run_kernel(run, ex, fn, [Ref(ex.new_cell(st, me)), Ref(ex.new_cell(st, gen)), e2.opq("pos", "Position")], st)
+    gid = ex.to_val(st, gen).get_id()
+
+    def ids(t):
+        seen, stack = set(), [t]
+        while stack:
+            x = stack.pop()
+            if x.get_id() in seen:
+                continue
+            seen.add(x.get_id())
+            stack.extend(x.children())
+        return seen
+    claims, n = [], 0
+    for p in ends:
+        if not (p.kind == "return" and isinstance(p.ret, Agg) and p.ret.variant == "Ok"):
+            continue
+        r = p.ret.fields[0]
+        if not (isinstance(r, Agg) and r.names and "is_nullable" in r.names):
+            claims.append(z3.Not(conj(p.cond)))
+            continue
+        n += 1
+        out = r.fields[list(r.names).index("is_nullable")]
+        depends = z3.is_bool(out) and (gid in ids(out) or e2.solve(ex, list(p.cond) + [z3.Not(flag)])[0] == z3.unsat)
+        claims.append(z3.Implies(conj(p.cond), z3.And(z3.BoolVal(bool(depends)), z3.Implies(flag, out) if z3.is_bool(out) else z3.BoolVal(False))))
+    if not n:
+        raise Unsupported("no Ok path")
+    f = e2.Family(rp)
+    f.add("inferred-list-element-into-int", "def y: Int? := None\ndef l := [1, y]\ndef z: Int := l[0]", "reject")
+    f.add("inferred-list-of-nullable-into-list", "def y: Int? := None\ndef l := [y]\ndef m: List[Int] := l", "reject")
+    f.add("inferred-list-element-into-nullable", "def y: Int? := None\ndef l := [1, y]\ndef z: Int? := l[0]", "accept")
+    f.add("inferred-list-of-int-element-into-int", "def y: Int := 2\ndef l := [1, y]\ndef z: Int := l[0]", "accept")
+    e2.prove(run, ob, ex, [], conj(claims), {}, f.as_replay("substitution-nullability:"))
+    if ob.status == "discharged":
+        k_, bad = f.run()
+        run.validated += k_
+        if bad:
+            ob.status = "pending"
+            ob.inconclusive(f"family disagrees although the kernel is as specified: {bad[:2]}")
+
+
 def run(run):
     mir = e2.load_mir(run)
     rp = common.Replay()
@@ -372,7 +424,7 @@ def run(run):
     run.bounds = {"paths": "all acyclic paths of each kernel", "inline_depth": 4,
                   "outside": "that every consuming position reaches this comparison; HashSet internals; "
                              "constructor field-assignment analysis"}
-    for f in (ob_true_name_rule, ob_accessors, ob_union, ob_question_none, ob_field_receiver):
+    for f in (ob_true_name_rule, ob_accessors, ob_union, ob_question_none, ob_field_receiver, ob_substitute_nullable):
         try:
             f(run, mir, rp, fam)
         except Unsupported as e:
